@@ -128,7 +128,50 @@ def gen(rng, tier):
             hist.append(dict({"ev": "compute", "var": v}, **H.rand_sched(rng)))
     nmut = rng.randint(1, 4 if tier == "thorough" else 3)
     key_kinds = ["basic", "basic", "basic", "list", "bool1d", "npmask", "daskmask"]
+    # "aux" scenario: the assignment goes through a live dask collection of its own (an integer index,
+    # a boolean mask or the assigned value), and THAT collection is modified in place afterwards: x, now
+    # an "other collection", has to keep the value the assignment gave it
+    aux_at = rng.randrange(nmut) if (mode == "assign" and X.shape[0] >= 3 and rng.random() < 0.4) else None
     for mi in range(nmut):
+        if mi == aux_at:
+            k += 1
+            a = f"k{k}"
+            n0 = int(X.shape[0])
+            akind = rng.choice(["int", "int", "mask", "value"])
+            scalar = rng.choice([0, -1, 7, 3])
+            if akind == "int":
+                cnt = rng.randint(1, min(3, n0 - 1))
+                lst = sorted(rng.sample(range(n0), cnt))
+                spare = rng.choice([j for j in range(n0) if j not in lst])
+                hist.append({"ev": "mkaux", "out": a, "kind": akind, "data": lst, "dtype": "i8", "chunks": rng.choice([1, 2, cnt])})
+                hist.append({"ev": "setitem", "var": x, "key": [{"aux": a}], "value": scalar})
+                mut = {"ev": "setitem", "var": a, "key": [rng.randrange(cnt)], "value": spare}
+            elif akind == "mask":
+                size = int(np.prod(X.shape))
+                data = np.array([rng.random() < 0.4 for _ in range(size)]).reshape(X.shape)
+                hist.append({"ev": "mkaux", "out": a, "kind": akind, "data": data.tolist(), "dtype": "bool",
+                             "chunks": rng.choice([1, 2, 3, n0])})
+                hist.append({"ev": "setitem", "var": x, "key": {"aux_mask": a}, "value": scalar})
+                mut = {"ev": "setitem", "var": a, "key": [0], "value": bool(not data[0].all())}
+            else:
+                lo = rng.randint(0, n0 - 2)
+                hi = rng.randint(lo + 1, n0)
+                shp = [hi - lo] + [int(d) for d in X.shape[1:]]
+                data = (np.arange(int(np.prod(shp))).reshape(shp) * 5 + 100).tolist()
+                hist.append({"ev": "mkaux", "out": a, "kind": akind, "data": data,
+                             "dtype": "f8" if X.dtype.kind == "f" else "i8", "chunks": rng.choice([1, 2, hi - lo])})
+                hist.append({"ev": "setitem", "var": x, "key": [[lo, hi, None]], "value": {"aux": a}})
+                mut = {"ev": "setitem", "var": a, "key": [0], "value": -50}
+            if rng.random() < 0.6:
+                hist.append(dict({"ev": "compute", "var": x}, **H.rand_sched(rng)))
+            if rng.random() < 0.3:
+                hist.append(dict({"ev": "compute", "var": a}, **H.rand_sched(rng)))
+            hist.append(mut)
+            if rng.random() < 0.3:
+                hist.append(rng.choice([{"ev": "gc"}, {"ev": "evict", "what": "lower"}, {"ev": "evict", "what": "singleton"}]))
+            hist.append(dict({"ev": "compute", "var": rng.choice([x, a])}, **H.rand_sched(rng)))
+            hist.append({"ev": "check_others"})
+            continue
         if mode == "chunksizes":
             hist.append(dict({"ev": "compute_chunk_sizes", "var": x}, **H.rand_sched(rng)))
             mode = "done"
@@ -210,55 +253,80 @@ def nontrivial(case, stats):
 
 
 def execute(case, stats, log):
+    import dask_array as da
+
     m = H.Machine(case, stats, log, ID)
     x = case["x"]
-    earlier = {}  # pool var -> value recorded before the latest mutation
-    expected_x = [None]
-    mutated = [False]
+    earlier = {}   # pool var -> the value it has to compute to NOW (its first recorded value, or, for an
+    #                in-place target, the NumPy result of its latest in-place operation)
+    expected = {}  # in-place targets only: var -> NumPy result of its latest in-place operation
+    last_target = [None]
     src_fp = {}
+    aux_src = {}
 
     def comp(v, ev=None):
         return m.compute(m.pool[v], ev or {"policy": "fifo"})
 
-    def record_all(i):
+    def aliases(t):
+        return [v for v in m.pool if m.pool[v] is m.pool[t]]
+
+    def record_all(t):
+        al = set(aliases(t))
         for v in sorted(m.pool):
-            if v == x or v in earlier or m.pool[v] is m.pool[x]:
-                continue  # x[:] / +x / swapaxes(i, i) return the very same object: an alias of x
+            if v in al or v in earlier:
+                continue  # x[:] / +x / swapaxes(i, i) return the very same object: an alias of the target
             try:
                 earlier[v] = comp(v)
             except Exception:  # noqa: BLE001
                 earlier[v] = None
 
+    def mismatch(v, now, i, why):
+        r = same_value(now, earlier[v], exact=True)
+        if not r:
+            return
+        if v in expected and v in aliases(last_target[0]):
+            raise Violation(ID, "inplace-result-wrong",
+                            f"event {i} ({why}): {v} after the in-place operation differs from the NumPy result of the same "
+                            f"operation applied to its previous value: {r}", step=i)
+        raise Violation(ID, "other-collection-changed",
+                        f"event {i} ({why}): {v} no longer computes its earlier value after the in-place "
+                        f"operation on {last_target[0]}: {r}", step=i)
+
     def check_others(i, why):
         for v in sorted(m.pool):
-            if v == x or m.pool[v] is m.pool[x]:
-                continue
             if earlier.get(v) is None:
                 continue
             try:
                 now = comp(v)
             except Exception as e:  # noqa: BLE001
-                raise Violation(ID, "other-collection-broken",
-                                f"event {i} ({why}): {v} computed before the in-place operation on {x} but now raises "
-                                f"{type(e).__name__}: {str(e)[:200]}", step=i)
-            stats["others_checked"] = stats.get("others_checked", 0) + 1
-            r = same_value(now, earlier[v], exact=True)
-            if r:
-                raise Violation(ID, "other-collection-changed",
-                                f"event {i} ({why}): {v} no longer computes its earlier value after the in-place "
-                                f"operation on {x}: {r}", step=i)
+                cls = "inplace-result-raises" if v in aliases(last_target[0]) else "other-collection-broken"
+                raise Violation(ID, cls,
+                                f"event {i} ({why}): {v} computed before the in-place operation on {last_target[0]} but now "
+                                f"raises {type(e).__name__}: {str(e)[:200]}", step=i)
+            stats["others_checked"] = stats.get("others_checked", 0) + (0 if v in aliases(last_target[0]) else 1)
+            mismatch(v, now, i, why)
         for n, s in sorted(m.env.sources.items()):
             if fp(s["user"]) != src_fp.setdefault(n, fp(s["orig"])):
                 raise Violation(ID, "source-mutated", f"event {i}: source array {n} was modified", step=i)
             if hasattr(s["obj"], "unchanged") and not s["obj"].unchanged():
                 raise Violation(ID, "source-mutated", f"event {i}: SimSource {n} backing was modified", step=i)
+        for n, (arr, f0) in sorted(aux_src.items()):
+            if fp(arr) != f0:
+                raise Violation(ID, "source-mutated", f"event {i}: the NumPy array behind {n} was modified", step=i)
 
     for i, ev in enumerate(case["history"]):
         kind = ev["ev"]
         var = ev.get("var")
         if kind == "check_others":
-            if mutated[0]:
+            if last_target[0] is not None and last_target[0] in m.pool:
                 check_others(i, "check")
+            continue
+        if kind == "mkaux":
+            # an index / mask / value collection of its own, used BY REFERENCE in a later assignment
+            arr = np.array(ev["data"], dtype=ev["dtype"])
+            aux_src[ev["out"]] = (arr, fp(arr))
+            m.pool[ev["out"]] = da.from_array(arr, chunks=ev["chunks"])
+            log.append([i, "mkaux", ev["out"], ev["kind"]])
             continue
         if kind == "derive":
             if ev["as"] not in m.by_out:
@@ -279,14 +347,13 @@ def execute(case, stats, log):
         if var is not None and kind != "build" and var not in m.pool:
             continue
         if kind in ("setitem", "ufunc_out", "compute_chunk_sizes"):
-            if x not in m.pool:
-                continue
-            X = m.pool[x]
+            t = var
+            X = m.pool[t]
             try:
-                pre = comp(x)
+                pre = comp(t)
             except Exception as e:  # noqa: BLE001
-                raise Invalid(f"x does not compute before mutation: {e}")
-            record_all(i)
+                raise Invalid(f"{t} does not compute before mutation: {e}")
+            record_all(t)
             pre_meta = (X.shape, X.dtype, X.name)
             # NumPy model of the operation on dask's own pre-values
             try:
@@ -297,7 +364,8 @@ def execute(case, stats, log):
                     if hasattr(key, "compute"):
                         key_np = m.compute(key, {"policy": "fifo"})
                     elif isinstance(key, tuple):
-                        key_np = tuple(np.asarray(k) if isinstance(k, list) else k for k in key)
+                        key_np = tuple(np.asarray(k) if isinstance(k, list) else
+                                       (m.compute(k, {"policy": "fifo"}) if hasattr(k, "compute") else k) for k in key)
                     val_np = m.compute(val, {"policy": "fifo"}) if hasattr(val, "compute") else val
                     exp = np.array(pre, copy=True)
                     with warnings.catch_warnings():
@@ -305,7 +373,7 @@ def execute(case, stats, log):
                         exp[key_np] = val_np
                 elif kind == "ufunc_out":
                     f = getattr(np, ev["ufunc"])
-                    ins = [pre if a == x else a for a in ev["args"]]
+                    ins = [pre if a == t else a for a in ev["args"]]
                     exp = np.array(pre, copy=True)
                     f(*ins, out=exp)
                 else:
@@ -320,9 +388,15 @@ def execute(case, stats, log):
                 raise Invalid(f"in-place op rejected by dask_array: {type(e).__name__}: {str(e)[:200]}")
             stats["mutations"] = stats.get("mutations", 0) + 1
             stats[f"probe.{kind}"] = stats.get(f"probe.{kind}", 0) + 1
-            mutated[0] = True
-            expected_x[0] = exp
-            X = m.pool[x]
+            if t != x:
+                stats["probe.mutated_operand_of_earlier_assignment"] = stats.get("probe.mutated_operand_of_earlier_assignment", 0) + 1
+            if isinstance(ev.get("key"), (dict, list)) and "aux" in str(ev.get("key")) or "aux" in str(ev.get("value")):
+                stats["probe.assignment_through_live_collection"] = stats.get("probe.assignment_through_live_collection", 0) + 1
+            last_target[0] = t
+            for a_ in aliases(t):
+                expected[a_] = exp
+                earlier[a_] = exp
+            X = m.pool[t]
             if kind == "compute_chunk_sizes":
                 if any(math.isnan(c) for dim in X.chunks for c in dim):
                     raise Violation(ID, "chunk-sizes-unresolved", f"event {i}: chunks still unknown after compute_chunk_sizes: {X.chunks}", step=i)
@@ -342,7 +416,7 @@ def execute(case, stats, log):
                 if tuple(X.shape) != tuple(pre_meta[0]) or X.dtype != pre_meta[1]:
                     raise Violation(ID, "inplace-changed-metadata",
                                     f"event {i}: {kind} changed shape/dtype {pre_meta[0]}/{pre_meta[1]} -> {X.shape}/{X.dtype}", step=i)
-            log.append([i, kind, x, m.nm(X.name)])
+            log.append([i, kind, t, m.nm(X.name)])
             continue
         try:
             out = m.apply(ev)
@@ -351,38 +425,32 @@ def execute(case, stats, log):
         except Exception as e:  # noqa: BLE001
             if kind == "build":
                 raise Invalid(f"build raised {type(e).__name__}: {str(e)[:200]}")
-            if var == x and kind == "compute" and mutated[0]:
-                raise Violation(ID, "inplace-result-raises",
-                                f"event {i}: compute({x}) after the in-place operation raised {type(e).__name__}: {str(e)[:300]}", step=i)
+            if kind in ("compute", "compute_via") and last_target[0] is not None and earlier.get(var) is not None:
+                cls = "inplace-result-raises" if var in aliases(last_target[0]) else "other-collection-broken"
+                raise Violation(ID, cls,
+                                f"event {i}: {kind}({var}{', ' + ev['entry'] if ev.get('entry') else ''}) after the in-place "
+                                f"operation on {last_target[0]} raised {type(e).__name__}: {str(e)[:300]}", step=i)
             log.append([i, kind, var, "raised-ignored"])
             continue
         if kind == "compute":
             val = out["value"]
             log.append([i, "compute", var, fp(val)])
-            if var == x and expected_x[0] is not None:
-                r = same_value(val, expected_x[0], exact=True)
-                if r:
-                    raise Violation(ID, "inplace-result-wrong",
-                                    f"event {i}: {x} after the in-place operation differs from the NumPy result of the same "
-                                    f"operation applied to its previous value: {r}", step=i)
-                stats["x_checked"] = stats.get("x_checked", 0) + 1
-            elif var != x and m.pool[var] is not m.pool.get(x) and mutated[0] and earlier.get(var) is not None:
-                r = same_value(val, earlier[var], exact=True)
-                stats["others_checked"] = stats.get("others_checked", 0) + 1
-                if r:
-                    raise Violation(ID, "other-collection-changed",
-                                    f"event {i}: {var} no longer computes its earlier value after the in-place operation "
-                                    f"on {x}: {r}", step=i)
-        elif kind in ("pickle", "copy", "persist") and var == x and mutated[0]:
+            if last_target[0] is not None and earlier.get(var) is not None:
+                if var in expected:
+                    stats["x_checked"] = stats.get("x_checked", 0) + 1
+                else:
+                    stats["others_checked"] = stats.get("others_checked", 0) + 1
+                mismatch(var, val, i, "compute")
+        elif kind in ("pickle", "copy", "persist") and var in expected:
             # copies taken after the mutation must carry the mutated value
             try:
                 earlier[ev["out"]] = comp(ev["out"])
             except Exception as e:  # noqa: BLE001
-                raise Violation(ID, "inplace-result-raises", f"event {i}: {kind} copy of mutated {x} raises {type(e).__name__}: {e}", step=i)
-            r = same_value(earlier[ev["out"]], expected_x[0], exact=True)
+                raise Violation(ID, "inplace-result-raises", f"event {i}: {kind} copy of mutated {var} raises {type(e).__name__}: {e}", step=i)
+            r = same_value(earlier[ev["out"]], expected[var], exact=True)
             if r:
                 raise Violation(ID, "inplace-result-wrong",
-                                f"event {i}: {kind} copy of {x} taken after the in-place operation differs from {x}'s value: {r}", step=i)
+                                f"event {i}: {kind} copy of {var} taken after the in-place operation differs from {var}'s value: {r}", step=i)
         else:
             log.append([i, kind, var])
 
